@@ -35,6 +35,8 @@ computed from the concrete failing step):
      unversioned file "succeeds" and versions the file)
  git-rename-detection-pairs-modified-file-with-added-copy (git: status reports a modified file also as renamed
      to a new file with its old content; revert then versions `c.moved` and loses the added file)
+ git-revert-raises-after-remove-keep                (git: revert raises KeyError when a committed file was removed with
+     keep_files and its directory is no longer versioned)
 
 Mutants tried (scratch worktree, families above treated as known):
  m2 InventoryWorkingTree._move_entry: inv.rename(..., entry.from_tail)             -> oracle (error not atomic / status)
@@ -58,7 +60,7 @@ RULE = ("case = (format, op sequence generated adaptively from the real tree, wi
         "every step; distinct by (format, canonical op list); non-trivial = at least 3 successful mutating ops and one of "
         "commit / revert / reopen")
 ASSUMPTIONS = [
-    "names from {a,b,c,d}, depth <= 3, contents from 4 values; sequences <= 25 ops (quick) / 60 (thorough); theorems are unbounded",
+    "names from {a,b,c,d}, depth <= 3, contents from 4 values; sequences <= 25 ops (70 per quick run, 400 per thorough run); theorems are unbounded",
     "files are never replaced by directories on disk behind the tree's back (kind changes) and versioned files are only deleted through remove",
     "revert is run with backups=False; conflicts of revert other than 'unversioned object in the way -> .moved' are avoided by the generator",
     "case-sensitive UTF-8 file system",
@@ -169,6 +171,15 @@ class Real:
         return sorted(out)
 
 
+def _moved_variants(q):
+    """q itself, or q below / as an object that revert renamed to `<name>.moved`"""
+    parts = q.split("/")
+    out = {q}
+    for k in range(1, len(parts) + 1):
+        out.add("/".join(parts[:k - 1] + [parts[k - 1] + ".moved"] + parts[k:]))
+    return out
+
+
 def _prefixes(p):
     parts = p.split("/")
     return ["/".join(parts[:k]) for k in range(1, len(parts))]
@@ -251,7 +262,7 @@ def git_copy_of_modified(committed, current):
     cb = {l.split("|")[0]: l.split("|") for l in committed}
     cw = {l.split("|")[0]: l.split("|") for l in current}
     for p, f in cb.items():
-        if f[1] == "file" and p in cw and cw[p][1] == "file" and cw[p][2] != f[2]:
+        if f[1] == "file" and p in cw and cw[p][1] == "file" and cw[p] != f:
             for q, g in cw.items():
                 if q not in cb and g[1] == "file" and g[2] == f[2]:
                     return True
@@ -391,7 +402,15 @@ def run_real(fmt, ops=None, rng=None, length=0, gen=True):
             st = sb if fmt == "bzr" else status_paths(ch, committed, new_listing)
             # ---- oracle ----------------------------------------------------
             where = "step %d %r" % (i - 1, op)
-            if res != "ok":
+            if res != "ok" and op[0] in ("revert", "commit", "reopen"):
+                fam = None
+                on_disk = {q for q, k in disk}
+                if fmt == "git" and op[0] == "revert" and any(
+                        l.split("|")[1] == "file" and l.split("|")[0] not in {x.split("|")[0] for x in listing}
+                        and l.split("|")[0] in on_disk for l in committed):
+                    fam = "git-revert-raises-after-remove-keep"
+                problems.append((where, "%s raised %s" % (op[0], res), "must-not-raise", fam))
+            elif res != "ok":
                 if new_listing != listing or sb != prev_status:
                     problems.append((where, "operation raised %s but the tree changed: versioned %r -> %r" % (
                         res, sorted(set(listing) ^ set(new_listing))[:4], sorted(set(sb) ^ set(prev_status))[:3]), "error-not-atomic", None))
@@ -416,8 +435,18 @@ def run_real(fmt, ops=None, rng=None, length=0, gen=True):
                     cb = {l.split("|")[0] for l in committed}
                     verp = {l.split("|")[0]: l.split("|")[1] for l in listing}
                     nd = {q for q, k in new_disk}
+                    renames = [(f[0], f[1]) for f in (x.split("|") for x in prev_status)
+                               if f[3] == "TT" and f[0] != f[1]]
+
+                    def back(q):
+                        # where a path ends up when the renames are undone
+                        for old, new_ in sorted(renames, key=lambda r: -len(r[1])):
+                            if q == new_ or q.startswith(new_ + "/"):
+                                return old + q[len(new_):]
+                        return q
                     lost = [q for q, k in disk if k == "f" and (q not in verp or q not in cb)
-                            and q not in nd and (q + ".moved") not in nd
+                            and q not in {r[1] for r in renames}
+                            and not (_moved_variants(q) | _moved_variants(back(q))) & nd
                             and not any(x in cb and x not in verp for x in _prefixes(q))]
                     if lost:
                         problems.append((where, "revert deleted files that are not part of the basis: %r" % (lost[:4],),
@@ -543,10 +572,15 @@ def check_result(ctx, fmt, res, shrink=True):
     # oracle
     # only the first problem of a sequence is reported: later ones are consequences
     for where, what, slug, fam in res["problems"][:1]:
-        do_shrink = shrink and ctx.extra.get("shrunk", 0) < SHRINK_LIMIT
+        # unknown problems are always minimised (up to the limit); known families once each
+        seen_fams = ctx.extra.setdefault("families_shrunk", [])
+        do_shrink = shrink and ((fam is None and ctx.extra.get("shrunk", 0) < SHRINK_LIMIT) or
+                                (fam is not None and fam not in seen_fams))
         small = ddmin(ctx, fmt, ops, "oracle:" + slug) if do_shrink else ops
-        if do_shrink:
+        if do_shrink and fam is None:
             ctx.extra["shrunk"] = ctx.extra.get("shrunk", 0) + 1
+        if do_shrink and fam is not None:
+            seen_fams.append(fam)
         r2 = run_real(fmt, ops=small)
         w2 = next((p for p in r2["problems"] if p[2] == slug), (where, what, slug, fam))
         ctx.violation(dict(fmt=fmt, ops=small), "%s: %s: %s" % (fmt, w2[0], w2[1]), family=w2[3])
@@ -572,8 +606,8 @@ def check_result(ctx, fmt, res, shrink=True):
 
 def run(ctx, nseq=None):
     os.environ["RUST_BACKTRACE"] = "0"
-    nseq = nseq or ctx.pick(70, 500)
-    maxlen = ctx.pick(25, 60)
+    nseq = nseq or ctx.pick(70, 400)
+    maxlen = 25      # longer sequences mostly add revert conflicts outside the modelled envelope
     jobs = []
     for k in range(nseq):
         fmt = "bzr" if k % 2 == 0 else "git"
